@@ -106,16 +106,23 @@ def prepare(inst, work, mutant=None):
                 raise Machinery("mutant %s does not apply to slice %s" % (mutant.get("name"), s["as"]))
             body = nb
             mut_applied = True
-        for mf in s.get("must_contain", []):
+        # "must_contain" is ADVISORY: the slice is the real code, so the contract decides whether a changed text still
+        # satisfies the property (a hard failure here would turn semantic changes into undecided runs).  Only patterns
+        # listed under "model_depends_on" (the stub/macro model is unsound without them) stop the run.
+        for mf in s.get("model_depends_on", []):
             if not re.search(mf, r["body"], re.S):
-                raise Machinery("slice %s no longer contains /%s/ (contract was written against it)" % (s["as"], mf))
+                raise Machinery("slice %s no longer contains /%s/ (the stub model depends on it)" % (s["as"], mf))
+        notes = [mf for mf in s.get("must_contain", []) if not re.search(mf, r["body"], re.S)]
         first = r["start_line"]
         with open(os.path.join(work, "slices", s["as"]), "w", encoding="utf-8", errors="surrogateescape") as f:
             f.write('#line %d "%s"\n' % (first, path))
             f.write(body)
             f.write("\n")
-        recs.append({"as": s["as"], "file": s["file"], "lines": [r["start_line"], r["end_line"]],
-                     "signature": r["signature"], "sha256": r["sha256"]})
+        rec = {"as": s["as"], "file": s["file"], "lines": [r["start_line"], r["end_line"]],
+               "signature": r["signature"], "sha256": r["sha256"]}
+        if notes:
+            rec["text_changed_since_contract_was_written"] = notes
+        recs.append(rec)
     if mutant and not mut_applied:
         raise Machinery("mutant %s names unknown slice" % mutant.get("name"))
     # verbatim regex extractions (enums, tables) and constants
